@@ -19,7 +19,9 @@ class TreeEnv:
         try:
             env.load_tree(tree)
         except BaseException as e:  # generator or import failure
-            raise TreeRejected(f"{type(e).__name__}: {e}") from e
+            err = TreeRejected(f"{type(e).__name__}: {e}")
+            err.stage = getattr(env, "load_stage", None) or "generate"
+            raise err from e
         self.EoReader = importlib.import_module("eolib.data.eo_reader").EoReader
         self.EoWriter = importlib.import_module("eolib.data.eo_writer").EoWriter
         self.SerializationError = importlib.import_module("eolib.protocol.serialization_error").SerializationError
